@@ -33,6 +33,10 @@ const (
 var (
 	ErrNotExist = stdos.ErrNotExist
 	ErrExist    = stdos.ErrExist
+	ErrClosed           = stdos.ErrClosed
+	ErrInvalid          = stdos.ErrInvalid
+	ErrPermission       = stdos.ErrPermission
+	ErrDeadlineExceeded = stdos.ErrDeadlineExceeded
 )
 
 func IsNotExist(err error) bool { return stdos.IsNotExist(err) }
